@@ -265,8 +265,10 @@ def run_single(rep, binary, tier, seed, sdir, rt, ntrees, nrand):
     rng = vlib.Rng(seed).fork("c03" + ("" if rt == "omp" else rt))
     cases = []
     for tc in T.gen_random(rng, ntrees, 120 if tier == "quick" else 800, dims=(1, 2, 3), Hmax={1: 7, 2: 5, 3: 5}):
-        tc.per = 0
+        # a quarter of the trees use the periodic ordering (wrapping lists inside the box, upper level 1 as the library does)
+        tc.per = 1 if (rng.below(4) == 0 and tc.H >= 2) else 0
         stop = rng.choice([2, 2, 0, 1])
+        if tc.per: stop = 1
         flags = rng.choice([[63], [63], [63], [6, 9, 48], [2, 4, 8, 16, 33]])
         scheds = [(0, 1, 0), (1, rng.choice([1, 2, 3, 8, 16]), 0), (2, rng.choice([2, 3, 8]), 0), (4, 4, 0), (5, 16, 0)]
         scheds += [(3, rng.choice([1, 2, 3, 8, 16]), rng.below(1 << 30)) for _ in range(nrand)]
